@@ -113,11 +113,23 @@ check('C19', 'E2-world',
       'DESIGN.md section 7 C19')
 
 
+check('C14', 'E2-world',
+      'Seeded histories on one dataset: derived attributes defined by arithmetic trees, user functions and parsed text over stored / pixel / '
+      'world / derived inputs are added, removed, re-identified, reordered and have their inputs updated, with comparisons under views in '
+      'between; the harness keeps the raw arrays and expression trees and requires data[derived, view] to equal the numpy evaluation, the '
+      'component list after a removal to be the old list minus the transitive dependants, and update_id / reorder to keep values and order. '
+      'Sampling, not proof.',
+      'World-coordinate input values are read from glue; relative tolerance 1e-12 because numpy pow is not bit-reproducible across array '
+      'layouts; attributes defined on a replaced identifier leave the checked set (the statement does not say they follow it).',
+      'deterministic simulation: seeded mutation/read history + independent numpy reference model with dependency graph',
+      'DESIGN.md section 7 C14')
+
+
 def na(pid, reason):
     NA[pid] = dict(property_id=pid, reason=reason)
 
 PENDING = 'check under construction in this build round (see DESIGN.md section 7); not claimed until its oracle is proven sound on the unchanged tree'
-for pid in [ 'C11', 'C14', 'C16', 'C17', 'C18']:
+for pid in [ 'C11', 'C16', 'C17', 'C18']:
     na(pid, PENDING)
 na('C08', 'pure function of region parameters and points: no schedule, clock, fault, shared state or history for a simulator to vary (DESIGN.md section 8)')
 na('C09', 'pure translation roi -> subset state; nothing stateful or faulty involved (DESIGN.md section 8)')
